@@ -6,6 +6,7 @@ import json
 import os
 import random
 import re
+import shutil
 import tempfile
 from concurrent.futures import ThreadPoolExecutor
 
@@ -270,6 +271,9 @@ def record(case, res, ref):
             'suiteTests': suite_tests or {'_': []},
             'tests': [{'t': t, 'ref': ref['ev'].get(t, []), 'gated': bool(case.get('gated')),
                        'runs': runs.get(t, 0)} for t in own],
+            # the literal --xml option when it was relative (the files above were then looked for
+            # under <cwd at start>/<option>/testreports), '' otherwise
+            'reldir': case.get('reldir', ''),
             'files': files, 'crashed': res.get('crashed', '') or ''}
 
 
@@ -318,6 +322,8 @@ def run(chk, tier, seed, replay=None):
                 'non-ASCII, control characters) x --repeat / --buffer, in-process and with the layers in subprocesses (-j N, resume: each process writes its own files); '
                 'every code point U+0000-U+001F and U+007F-U+009F and both sides of every boundary of the Char production (%d code points), each one alone '
                 'in a message, in the traceback text and in a test name; layers whose setUp / tearDown fails (with --repeat); '
+                'a RELATIVE --xml directory with tests that chdir and never go back, in one process and with -j 2 (the reports are looked for under '
+                '<cwd at start>/<option>/testreports only); '
                 'projects with test modules that cannot be imported (raising, syntax error, bad test_suite) under -m / -t filters that select '
                 'nothing else, -j 2, --repeat, and runs that select nothing at all; every report file is parsed with '
                 'expat and TLC compares it with the recorded run; distinct = distinct (kinds, classes, names, options)'
@@ -383,6 +389,41 @@ def run(chk, tier, seed, replay=None):
                     l['tearDown'] = 'notimpl'
             c['cli'] = True
             cases.append(c)
+        # a RELATIVE --xml directory (the process starts in a scratch directory) and tests that
+        # leave the process in another working directory: alone in one process and with the
+        # layers in --resume-layer children (-j 2; the chdir tests sit in layers, so children run them)
+        outer, rng = rng, random.Random(seed * 7919 + 1717)   # (own stream: the cases after these stay what they were)
+        for k in range(6 if tier == 'quick' else 60):
+            n += 1
+            kinds = [rng.choice(KINDS) for _ in range(rng.randint(3, 6))]
+            c = make_case('x%d' % n, rng, kinds, (rng.choice(['plain', 'markup', 'nonascii']),), 'plain')
+            w = c['world']
+            ids = [t for cs in w['classes'].values() for t in cs['tests']]
+            # one passing test that does nothing but chdir, at a random place; some others chdir first
+            tid = 't%d' % (len(ids) + 1)
+            w['tests'][tid] = {'kind': 'pass', 'body': [{'a': 'chdir'}]}
+            ids.insert(rng.randrange(len(ids) + 1), tid)
+            for t in ids:
+                if t != tid and rng.random() < 0.3:
+                    w['tests'][t]['body'] = [{'a': 'chdir'}] + list(w['tests'][t].get('body', ()))
+            c['args'] = [a for a in c['args'] if a != '--buffer']
+            if k % 2:
+                w['layers'] = {l: {'kind': 'class', 'bases': [], 'hooks': ['setUp', 'tearDown']}
+                               for l in ('L1', 'L2', 'L3')}
+                w['layer_order'] = ['L1', 'L2', 'L3']
+                w['classes'] = {'T' + l: {'tests': ids[i::3], 'layer': l}
+                                for i, l in enumerate(('L1', 'L2', 'L3')) if ids[i::3]}
+                c['args'] = [a for a in c['args'] if a not in ('--repeat', '2')] + ['-j', '2']
+                c['repeat'] = 1
+            else:
+                half = max(1, len(ids) // 2)
+                w['classes'] = {'TA': {'tests': ids[:half], 'layer': 'L1'}, 'TB': {'tests': ids[half:]}}
+            rel = 'xmlrel-%d-%d' % (os.getpid(), n)
+            c['reldir'] = rel if k % 4 < 2 else os.path.join(rel, 'deep', 'r')
+            c['msg_classes'] = c['msg_classes'] + ['relative-dir-chdir']
+            c['cli'] = True
+            cases.append(c)
+        rng = outer
         # test modules that cannot be imported; filters that leave nothing else / nothing at all
         one = [('broken', 'raises')]
         for broken, args, good in [
@@ -411,9 +452,23 @@ def run(chk, tier, seed, replay=None):
         proj = make_project(d, c['project']) if c.get('project') else None
         # (like the in-process runs: a stdout that can take any character - what a
         # strict UTF-8 pipe does with a lone surrogate is not this property's business)
-        r = runlib.run_cli(c['world'], c['args'] + ['--xml', os.path.join(d, 'xml')], keep_dir=d, timeout=120,
-                           path_dir=proj, env_extra={'PYTHONIOENCODING': 'utf-8:backslashreplace'})
-        r['xml_files'] = inproc_worker.read_xml_reports(os.path.join(d, 'xml'))
+        if c.get('reldir'):
+            # observation: the directory the process starts in and the literal option; the
+            # requested directory is the option resolved against the START directory
+            start = os.path.join(d, 'start')
+            os.makedirs(start)
+            r = runlib.run_cli(c['world'], c['args'] + ['--xml', c['reldir']], keep_dir=d, timeout=120, cwd=start,
+                               env_extra={'PYTHONIOENCODING': 'utf-8:backslashreplace'})
+            r['xml_dir'] = {'start': start, 'option': c['reldir']}
+            r['xml_files'] = inproc_worker.read_xml_reports(os.path.join(start, c['reldir']))
+            # what a runner that resolves the directory late leaves where the tests chdir to
+            stray = os.path.join(_tf.gettempdir(), c['reldir'].split(os.sep)[0])
+            r['stray_dir'] = os.path.isdir(stray)
+            shutil.rmtree(stray, ignore_errors=True)
+        else:
+            r = runlib.run_cli(c['world'], c['args'] + ['--xml', os.path.join(d, 'xml')], keep_dir=d, timeout=120,
+                               path_dir=proj, env_extra={'PYTHONIOENCODING': 'utf-8:backslashreplace'})
+            r['xml_files'] = inproc_worker.read_xml_reports(os.path.join(d, 'xml'))
         r['crashed'] = '' if r['rc'] in (0, 1) and 'Traceback (most recent call last)' not in r['stderr'] \
             else 'rc=%s' % r['rc']
         return r
@@ -455,6 +510,7 @@ def run(chk, tier, seed, replay=None):
         seen['probe_worlds'] += bool(c.get('probes'))
         seen['import_failures_reported'] += sum(i['reported'] for i in rec['imports'])
         seen['runs_without_any_test'] += bool(c.get('project')) and not any(t['runs'] for t in rec['tests'])
+        seen['relative_dir_chdir_runs'] += bool(c.get('reldir'))
         seen['layer_fault_worlds'] += bool(c.get('gated')) and not c.get('project')
         chk.nontrivial.add(json.dumps([[t.get('kind') for t in c['world']['tests'].values()],
                                        c['msg_classes'], c['args'],
@@ -464,11 +520,12 @@ def run(chk, tier, seed, replay=None):
             chk.extra['drift'] = chk.extra.get('drift', 0) + 1
             chk.notes.append('DRIFT %s: testcase sequence of a report differs from the recording machine of XmlReport.tla' % c['id'])
         elif clause:
-            sig = '%s|%s' % (clause, arg) if clause in ('C17:malformed', 'C17:wrong-identity', 'C17:run-aborted') else clause
+            sig = '%s|%s' % (clause, arg) if clause in ('C17:malformed', 'C17:wrong-identity', 'C17:run-aborted', 'C17:report-missing') else clause
             chk.violation(sig, '%s (%s): kinds %s message classes %s args %s'
                           % (clause, arg, [t.get('kind') for t in c['world']['tests'].values()],
                              c['msg_classes'], c['args']),
                           {'case': c, 'record': rec, 'xml_files': r.get('xml_files'),
+                           'xml_dir': r.get('xml_dir'), 'stray_dir_where_the_tests_chdir_to': r.get('stray_dir'),
                            'crash_tb': r.get('crash_tb', ''), 'stdout': (r.get('stdout') or '')[-3000:]})
     chk.extra['report_files_parsed'] = nfiles
     chk.extra.update(seen)
